@@ -80,23 +80,25 @@ def splitSign : List Char → Bool × List Char
   | '+' :: r => (false, r)
   | r => (false, r)
 
+/-- `( [eE] [-+]? [0-9]+ )?` up to the end of the text. -/
+def isExpTail : List Char → Bool
+  | [] => true
+  | c :: r => (c = 'e' || c = 'E') && allDigits (splitSign r).2
+
 /-- `( \. [0-9]+ | [0-9]+ ( \. [0-9]* )? ) ( [eE] [-+]? [0-9]+ )?` (no sign). -/
 def isFloatBody (cs : List Char) : Bool :=
-  let m := cs.takeWhile (fun c => !(c = 'e' || c = 'E'))
-  let e := cs.dropWhile (fun c => !(c = 'e' || c = 'E'))
-  let ip := m.takeWhile isDigit
-  let fp := m.dropWhile isDigit
-  let mantOk :=
-    match ip, fp with
-    | [], '.' :: f => allDigits f
-    | _ :: _, [] => true
-    | _ :: _, '.' :: f => f.all isDigit
-    | _, _ => false
-  let expOk :=
-    match e with
-    | [] => true
-    | _ :: r => allDigits (splitSign r).2
-  mantOk && expOk
+  match cs with
+  | [] => false
+  | c :: rest =>
+    if c = '.' then
+      -- `\. [0-9]+`
+      (match rest with | d :: _ => isDigit d | [] => false) && isExpTail (rest.dropWhile isDigit)
+    else if isDigit c then
+      -- `[0-9]+ ( \. [0-9]* )?`
+      match rest.dropWhile isDigit with
+      | '.' :: f => isExpTail (f.dropWhile isDigit)
+      | r => isExpTail r
+    else false
 
 def isInfWord (cs : List Char) : Bool :=
   cs = ".inf".toList || cs = ".Inf".toList || cs = ".INF".toList
